@@ -227,6 +227,15 @@ def execute(sc, ctx):
                     ctx.check(st == "exc" and isinstance(v, ComponentNotFoundError), "class-component-strict",
                               f"{where}: {cls.__name__}.get_class_component({T.__name__}, True) did not raise")
             ctx.check(cls.has_class_component(*list(ref)) is True, "class-component-membership", f"{where}: all-of")
+            if ref:
+                # a requirement list may name a type twice (two lists joined): that changes nothing
+                twice = list(ref) + list(ref)[:1]
+                ctx.check(cls.has_class_component(*twice) is True, "class-component-membership",
+                          f"{where}: {cls.__name__}.has_class_component({', '.join(t.__name__ for t in twice)}) is not True "
+                          f"although the class has {[t.__name__ for t in ref]}")
+                missing = [T for T in PT if T not in ref]
+                if missing:
+                    ctx.check(cls.has_class_component(*twice, missing[0]) is False, "class-component-membership", f"{where}: all-of + absent")
             ctx.check(cls.tag == tags[i], "default-tag-visibility",
                       lambda: f"{where}: {cls.__name__}.tag = {cls.tag!r}, reference {tags[i]!r} (a default tag leaked between classes)")
         for k_, comp_, tag_ in crowd:
